@@ -25,7 +25,7 @@ import (
 
 func init() {
 	register(&Check{ID: "C01", Level: "exploration",
-		Rule: "(a) mutated / truncated / random byte strings through the decoder, re-encoder, name scanner and TCP frame reader in child processes under the race detector and pool sanitizer; (b) hostile datagrams, lying TCP/DoT/DoQ frames in random segments and hostile DoH requests on all 8 listeners of the real binary, each followed by a valid probe, and the same against a proxy whose client limiter has refused the sender (must survive and serve other subnets); (c) hostile upstream replies (mutated, truncated, length-lying, HTTP-level) on 6 upstream transports followed by a valid query; " +
+		Rule: "(a) mutated / truncated / random byte strings through the decoder, re-encoder, name scanner and TCP frame reader in child processes under the race detector and pool sanitizer; (b) hostile datagrams, lying TCP/DoT/DoQ frames in random segments and hostile DoH requests on all 8 listeners of the real binary, each followed by a valid probe, and the same against a proxy whose client limiter has refused the sender (must survive and serve other subnets), decodable queries whose OPT record carries option TLVs with lying / cut / nonsensical inner lengths against a proxy with client subnet and cache on; (c) hostile upstream replies (mutated, truncated, length-lying, HTTP-level, DoH bodies streamed without Content-Length) on 8 upstream transports followed by valid queries; " +
 			"one evaluation = one hostile input; distinct non-trivial = distinct inputs by content hash (decoder) and distinct (listener or upstream, mutation kind) cells whose follow-up probe was answered",
 		Run: func(c *Ctx) {
 			c01Decoder(c)
@@ -39,7 +39,7 @@ func init() {
 			wg.Add(5)
 			go func() { defer wg.Done(); c01Sizes(c) }()
 			go func() { defer wg.Done(); c01ListenersLogged(c) }()
-			go func() { defer wg.Done(); c01ListenersLimited(c) }()
+			go func() { defer wg.Done(); c01ListenersLimited(c); c01ListenersOptions(c) }()
 			go func() { defer wg.Done(); c01Listeners(c) }()
 			go func() { defer wg.Done(); c01UpstreamReplies(c) }()
 			wg.Wait()
@@ -288,6 +288,130 @@ func c01ListenersLimited(c *Ctx) {
 	default:
 		c.Ev.Count("limited_bed_survived", 1)
 	}
+}
+
+// c01HostileOPT builds the RDATA of an OPT record: a sequence of option TLVs whose inner length
+// fields lie, are cut short or describe nonsense. The record itself is honest (RDLENGTH = the
+// octets present), so the query is a perfectly decodable DNS message: whatever walks the options
+// (client subnet, cookies, padding, ...) meets the lies.
+func c01HostileOPT(r *gen.R) ([]byte, string) {
+	opt := func(code uint16, declared int, data []byte) []byte {
+		b := []byte{byte(code >> 8), byte(code), byte(declared >> 8), byte(declared)}
+		return append(b, data...)
+	}
+	codes := []uint16{8, 8, 8, 10, 12, 3, 11, 15, 65001, 0}
+	var rd []byte
+	kind := ""
+	// a few honest options in front, so that the walker is in the middle of the record when it meets the lie
+	for i := r.Intn(3); i > 0; i-- {
+		d := r.Bytes(r.Intn(12))
+		rd = append(rd, opt(gen.Pick(r, codes[3:]), len(d), d)...)
+	}
+	code := gen.Pick(r, codes)
+	switch r.Intn(9) {
+	case 0: // declared length beyond the end of the record
+		have := r.Intn(4)
+		rd = append(rd, opt(code, have+r.Range(1, 40), r.Bytes(have))...)
+		kind = "option-length-beyond-rdata"
+	case 1: // 65535
+		rd = append(rd, opt(code, 65535, r.Bytes(r.Intn(6)))...)
+		kind = "option-length-65535"
+	case 2: // option header cut: 1-3 octets of code/length
+		rd = append(rd, opt(code, 0, nil)[:r.Range(1, 3)]...)
+		kind = "option-header-cut"
+	case 3: // ECS: length says 4+, fewer octets follow (directly at the end of the record)
+		rd = append(rd, opt(8, r.Range(4, 20), r.Bytes(r.Intn(4)))...)
+		kind = "ecs-shorter-than-declared"
+	case 4: // ECS with zero length / shorter than its fixed part
+		n := r.Intn(4)
+		rd = append(rd, opt(8, n, r.Bytes(n))...)
+		kind = "ecs-below-fixed-part"
+	case 5: // ECS whose prefix length does not fit the address octets / family unknown
+		fam := gen.Pick(r, []uint16{1, 2, 0, 3, 65535})
+		addr := r.Bytes(r.Intn(18))
+		d := append([]byte{byte(fam >> 8), byte(fam), byte(r.Intn(256)), byte(r.Intn(256))}, addr...)
+		rd = append(rd, opt(8, len(d), d)...)
+		kind = "ecs-prefix-and-family-nonsense"
+	case 6: // ECS source prefix 0 (opt-out form), honest and lying lengths
+		d := []byte{0, byte(r.Range(1, 2)), 0, 0}
+		rd = append(rd, opt(8, len(d)+r.Intn(2)*r.Range(1, 9), d)...)
+		kind = "ecs-prefix-zero"
+	case 7: // many empty options
+		for i := r.Range(50, 400); i > 0; i-- {
+			rd = append(rd, opt(gen.Pick(r, codes), 0, nil)...)
+		}
+		kind = "many-empty-options"
+	default: // random octets
+		rd = append(rd, r.Bytes(r.Range(1, 60))...)
+		kind = "random-rdata"
+	}
+	return rd, kind
+}
+
+// c01ListenersOptions: decodable queries whose OPT record carries hostile option TLVs, against a
+// proxy with client-subnet forwarding and the cache switched on (everything that may look at the
+// options of a query is in play). Judged: the proxy survives, whatever it sends back is a DNS
+// message, and valid queries are answered afterwards.
+func c01ListenersOptions(c *Ctx) {
+	b, err := NewBed(c, "options", BedOpts{Upstreams: []string{"pipe"}, ECS: true, MemSize: 1 << 20})
+	if err != nil {
+		c.startFailure(err, "c01-options")
+		return
+	}
+	n := c.N(60, 1200)
+	var wg sync.WaitGroup
+	for _, listener := range allListeners {
+		wg.Add(1)
+		go func(listener string) {
+			defer wg.Done()
+			parallelFor(n, 4, func() bool { return !b.Proxy.Alive() || c.ViolationCount() >= 10 }, func(i int) {
+				r := gen.New(c.Seed, "c01opt/"+listener, i)
+				rd, kind := c01HostileOPT(r)
+				name := fmt.Sprintf("ok-o%dx%s.pipe.test.", i%7, listener) // few names: hits and misses
+				q := mkQuery(uint16(r.Intn(65536)), name, dns.TypeA, dns.ClassINET, false)
+				binary.BigEndian.PutUint16(q[10:], 1) // ARCOUNT
+				q = append(q, 0, 0, 41, byte(r.Range(2, 16)), byte(r.Intn(256)), 0, 0, byte(r.Intn(2))<<7, 0, byte(len(rd)>>8), byte(len(rd)))
+				q = append(q, rd...)
+				c.Ev.Eval(1)
+				cs := map[string]any{"listener": listener, "opt_rdata": kind, "input_hex": hex.EncodeToString(q)}
+				x := b.Exchange(listener, q, xOpts{Timeout: 8 * time.Second})
+				if x.Err == nil && (x.Status == 0 || x.Status == 200) {
+					if m := new(dns.Msg); m.Unpack(x.Resp) != nil {
+						c.Violation("options:"+listener+":garbage-response", fmt.Sprintf("%s listener: a decodable query with OPT rdata of kind %s was answered with an undecodable message %s", listener, kind, hex.EncodeToString(x.Resp[:min(len(x.Resp), 40)])), cs)
+						return
+					}
+					c.Ev.Count("options_answered_"+listener, 1)
+				} else {
+					c.Ev.Count("options_rejected_"+listener, 1)
+				}
+				if i%3 == 0 || !b.Proxy.Alive() {
+					pn := fmt.Sprintf("ok-oprobe%dx%s.pipe.test.", i, listener)
+					if err := c01Probe(b, listener, pn); err != nil {
+						fails := 0
+						for k := 0; k < 3; k++ {
+							if c01Probe(b, listener, fmt.Sprintf("ok-oprobe%dx%sr%d.pipe.test.", i, listener, k)) != nil {
+								fails++
+							}
+						}
+						if fails == 3 {
+							c.Violation("options:"+listener+":wedged", fmt.Sprintf("%s listener stopped answering valid queries after a query with OPT rdata of kind %s: %v", listener, kind, err), cs)
+						} else {
+							c.Inconclusive("probe failed once: " + err.Error())
+						}
+						return
+					}
+				}
+				c.Ev.Distinct("options", listener, kind)
+			})
+		}(listener)
+	}
+	wg.Wait()
+	alive := b.Proxy.Alive()
+	res := b.Stop()
+	if !alive || res.Panic != "" && res.DiedBeforeStop {
+		c.Violation("listener:proxy-crash:opt-options", "the proxy (client subnet on, cache on) crashed on decodable queries whose OPT record carries hostile option TLVs: "+res.Panic, map[string]any{"panic": res.Panic})
+	}
+	c.Ev.Sample(map[string]any{"part": "opt-options", "inputs_per_listener": n, "kinds": "option-length-beyond-rdata, option-length-65535, option-header-cut, ecs-shorter-than-declared, ecs-below-fixed-part, ecs-prefix-and-family-nonsense, ecs-prefix-zero, many-empty-options, random-rdata"})
 }
 
 // c01ListenersLogged: valid queries whose names are almost entirely non-printable octets (four
@@ -628,7 +752,8 @@ func c01SendHostile(b *Bed, r *gen.R, listener string, h []byte, kind string) st
 // ---------------------------------------------------------------- (c) hostile upstream replies
 
 func c01UpstreamReplies(c *Ctx) {
-	ups := []string{"udp", "tcp", "pipe", "dot", "dohs", "doq"}
+	ups := []string{"udp", "tcp", "pipe", "dot", "dohs", "doq", "doh", "h3"}
+	isDoH := map[string]bool{"doh": true, "dohs": true, "h3": true}
 	b, err := NewBed(c, "upreplies", BedOpts{Upstreams: ups, Listeners: []string{"tcp", "udp"}})
 	if err != nil {
 		c.startFailure(err, "c01-upstream")
@@ -669,8 +794,13 @@ func c01UpstreamReplies(c *Ctx) {
 			defer wg.Done()
 			parallelFor(n, 10, func() bool { return !b.Proxy.Alive() || c.ViolationCount() >= 10 }, func(i int) {
 				kind := gen.Pick(gen.New(c.Seed, "c01uk/"+up, i), []string{"ok", "ok", "ok", "half", "http500", "garbage"})
-				if kind == "http500" && up != "dohs" {
+				if kind == "http500" && !isDoH[up] {
 					kind = "ok"
+				}
+				if isDoH[up] && kind == "ok" && i%2 == 0 {
+					// the DoH server flushes its header before the body: no Content-Length (chunked over
+					// HTTP/1.1, length unknown over h2 / h3), body in two pieces
+					kind = "ok-stream"
 				}
 				name := fmt.Sprintf("%s-hostile%dx%d.%s.test.", kind, i, c.Seed, up)
 				x := b.Exchange("tcp", mkQuery(uint16(i), name, dns.TypeA, dns.ClassINET, false), xOpts{Timeout: 10 * time.Second})
@@ -714,6 +844,9 @@ func c01UpstreamReplies(c *Ctx) {
 			time.Sleep(200 * time.Millisecond)
 			for k := 0; k < 5 && b.Proxy.Alive(); k++ {
 				pn := fmt.Sprintf("ok-after%dx%d.%s.test.", k, c.Seed, up)
+				if isDoH[up] && k%2 == 1 {
+					pn = "ok-stream-" + pn[3:] // a valid reply without Content-Length must be relayed like any other
+				}
 				err := c01Probe(b, "tcp", pn)
 				if err != nil { // one retry: the pooled connection may have been broken by the last hostile reply
 					err = c01Probe(b, "tcp", "r"+pn)
